@@ -86,7 +86,7 @@ class Ctx:
             shutil.copytree(SPEC, d)
         return d
 
-    def tlc(self, module, cfg, env=None, workers=1, timeout=900, extra=(), name=None, heap=None):
+    def tlc(self, module, cfg, env=None, workers=1, timeout=900, extra=(), name=None, heap=None, jvm=()):
         """Run TLC on spec/<module>.tla with the given cfg text.  Returns stdout.
         Each run gets its own cfg file and metadir."""
         d = self.specdir()
@@ -102,6 +102,7 @@ class Ctx:
         java = ['java', '-XX:+UseParallelGC', '-Xss64m']
         if heap:
             java.append('-Xmx' + heap)
+        java += list(jvm)
         cmd = ['timeout', str(timeout)] + java + [
             '-cp', '/opt/veriftools/tla/tla2tools.jar:/opt/veriftools/tla/CommunityModules-deps.jar',
             'tlc2.TLC', '-workers', str(workers), '-metadir', meta, '-config', cfgname + '.cfg'] + list(extra) + [module]
